@@ -1,0 +1,20 @@
+//go:build !verif
+
+// Package vhook provides verification hooks. Without the "verif" build tag
+// every function in this package is empty, so call sites compile to nothing.
+package vhook
+
+// Enabled reports whether verification hooks are compiled in.
+const Enabled = false
+
+// Trace records an event at a linearization point.
+func Trace(inst any, ev string, kv ...any) {}
+
+// Crash marks a point at which a simulated process crash may be injected.
+func Crash(point string) {}
+
+// Gate marks a point at which a scheduler may hold the calling goroutine.
+func Gate(point string, kv ...any) {}
+
+// Fail reports whether a fault should be injected at the named point.
+func Fail(point string) bool { return false }
